@@ -21,13 +21,20 @@ type CaseC11L struct {
 	Others   int       `json:"others"`
 	Steps    []StepC15 `json:"steps"` // local | remote | merge, as in C15
 	CancelAt int       `json:"cancel_at"` // block reads of the first Load let through before its context is cancelled
+	// Fail: instead of a cancellation, the next block read fails (an I/O error with a live context) and every
+	// other read of the first Load is served
+	Fail bool `json:"fail,omitempty"`
 }
+
+// keyLoadReadFailure: known finding - see known_findings.txt
+const keyLoadReadFailure = "C11-load-read-failure-hole"
 
 func genC11L(rt *rapid.T) CaseC11L {
 	c := CaseC11L{
 		Type:     rapid.SampledFrom([]string{"eventlog", "keyvalue"}).Draw(rt, "type"),
 		Others:   rapid.IntRange(0, 1).Draw(rt, "others"),
 		CancelAt: rapid.IntRange(0, 12).Draw(rt, "cancelAt"),
+		Fail:     rapid.IntRange(0, 2).Draw(rt, "fail") == 0,
 	}
 	n := rapid.IntRange(1, 5).Draw(rt, "nsteps")
 	for i := 0; i < n; i++ {
@@ -143,8 +150,15 @@ func execC11L(c CaseC11L) *Outcome {
 			return len(p0.Parked()) > 0
 		}, 2*time.Second)
 	}
-	cancel()
+	if c.Fail && !finished {
+		if !p0.FailParked(0, fmt.Errorf("simulated read failure")) {
+			c.Fail = false // nothing was outstanding: the Load was over
+		}
+	} else {
+		cancel()
+	}
 	p0.SetGate(false)
+	defer cancel()
 	if !finished {
 		select {
 		case lerr = <-done:
@@ -154,9 +168,13 @@ func execC11L(c CaseC11L) *Outcome {
 		}
 	}
 	partial := len(hashSetOf(s))
+	firstErr := lerr
 	// the later, uncancelled Load of the same heads
 	if gerr := guarded("a Load after a cancelled Load", func() { lerr = s.Load(ctx, -1) }); gerr != nil {
 		return fail("%v", gerr)
+	}
+	if lerr != nil && c.Fail {
+		return fail("after a Load one of whose block reads failed (it left %d of %d entries), the next Load failed: %v", partial, len(full), lerr)
 	}
 	if lerr != nil {
 		return fail("after a Load cancelled after %d block reads (it left %d of %d entries), the next Load failed: %v", released, partial, len(full), lerr)
@@ -168,11 +186,21 @@ func execC11L(c CaseC11L) *Outcome {
 			missing++
 		}
 	}
+	if missing > 0 && c.Fail {
+		out := fail("after a Load one of whose block reads failed (read %d; it returned %v and left %d of %d entries), the next Load of the same heads leaves %d of %d entries missing", released+1, firstErr, partial, len(full), missing, len(full))
+		if isKnown(keyLoadReadFailure) {
+			out.Known = keyLoadReadFailure
+		}
+		return out
+	}
 	if missing > 0 {
 		return fail("after a Load cancelled after %d block reads (it left %d of %d entries), the next Load of the same heads leaves %d of %d entries missing", released, partial, len(full), missing, len(full))
 	}
 	if out := viewIsReplay(s, c.Type, "after the second Load"); out != nil {
 		return out
+	}
+	if c.Fail {
+		o.Labels = append(o.Labels, "first-load-had-a-failing-read")
 	}
 	o.NonTrivial = partial > 0 && partial < len(full)
 	if partial == 0 {
